@@ -8,7 +8,8 @@ base = json.load(open("/root/.vp/BASELINE.json"))
 
 TB = ("Trusted: Coq 8.16.1 kernel + vm_compute (no native_compute, no axioms: every theorem prints 'Closed under the global "
       "context', re-checked from the build on every run); the hand-written Gallina model (modelled, not verified) tied to /repo "
-      "by the differential correspondence run; the Python harness. ")
+      "by the differential correspondence run and, for the units listed below, by fail-closed source-to-Gallina translators; the "
+      "Python harness. ")
 
 CHECKS = {
  "C01": ("proof",
@@ -134,6 +135,32 @@ CHECKS = {
          "Coq proof of per-construct lowering + per-design translation validation in Coq"),
 }
 
+# state at the end of the build (overrides the level notes above; see DESIGN.md §9.2 for the full table)
+UNITS = {"C01": "opshape, derived", "C02": "dsl", "C03": "xfrm", "C05": "pyeval", "C06": "nir", "C08": "pysim", "C10": "utils, shape",
+         "C11": "pysim", "C12": "fifo", "C15": "data", "C16": "crc"}
+NOTE_NOW = {
+ "C01": "exec() of generated code and the engine are validated by the differential run only; CPython slice.indices/range are read by hand-written definitions compared with the interpreter.",
+ "C02": "Targets are linear (known finding F9, exact filter); FSM lowering, Case pattern normalisation and the settle loop are in the model; which domains get a Switch and Module's context-manager bookkeeping are validated only; syntactic acyclicity => termination ranking not proved.",
+ "C03": "Renamer at the root / merging domains and controls wider than 1 bit are validated only; F7 was repaired in /repo (574e1db) and the own-edge theorem is stated at full strength.",
+ "C04": "Layer B is per design (translation validation against the RTLIL semantics of RtlilSem.v, an assumption: no Yosys offline); emit_assignment_list completeness and _ir.emit_assign are not modelled. Known finding: part-select signed $shift reading.",
+ "C05": "Aliased targets (F9) are compared model-vs-code only.",
+ "C06": "driver_check_iff is proved over a finite family of 40,950 designs only (bound stated in the theorem); the early-conflict and cycle clauses are unbounded. Known findings S2, zero-width driver vs input port.",
+ "C07": "translation_validation: structural well-formedness is decided per emitted document by a checker proved sound and complete w.r.t. its specification; the quantifier over designs is explored. Four open findings (port name collision, whitespace in names, field-wire collision, dotted module names).",
+ "C08": "Process replacement and coroutine mechanics are validated by the differential run (6-40 permuted set orders per scenario). Known finding S1.",
+ "C09": "Byte-identical RTLIL / traces / plans are explored across 11-29 PYTHONHASHSEED values and repeated runs; theorems cover the order-independence of the modelled steps, naming, digest, archive/extract and reset.",
+ "C10": "CPython range length/indexing is modelled (validated).",
+ "C11": "RTLIL agreement is checked by running the converted design under RtlilSem.v where RTLIL is defined.",
+ "C12": "Elaboration is tied for all widths/depths by the fifo translator unit; the simulator by the differential run.",
+ "C13": "Known finding F4 (depth 1 does not elaborate); reset behaviour beyond the property text is recorded as observations only.",
+ "C14": "Which of several coexisting defects is reported first, and JSON-schema validation, are validated only. Three known findings.",
+ "C15": "~ under EJECT/KEEP is partial; CPython enum.Flag behaviour validated against the interpreter. Known findings: signed enum fields, wide flag invert.",
+ "C16": "Published table committed under /verif/data; live catalog.py compared by the run. Known finding: even polynomials give a second matching trailer.",
+ "C17": "ResetSynchronizer is an alias of AsyncFFSynchronizer in the code and in the model.",
+ "C18": "Known finding C18-SIM-LHS-ALIAS (exact filter: the observation must equal the model of the simulator's read-modify-write lowering).",
+ "C19": "Rendered constraint files are compared line by line in file order (validated).",
+ "C20": "CPython str.format rendering validated against the interpreter. Known finding: brace fill.",
+}
+
 READY = [l.strip() for l in open(f"{V}/tools/ready.txt") if l.strip() and not l.startswith("#")]
 checks = []
 na = []
@@ -154,8 +181,9 @@ for p in props:
         "replay_cmd_template": f"./check {pid} --replay {{path}}",
         "engine": "coq-model",
         "level_claimed": {"category": level, "text": text, "design_ref": f"DESIGN.md §6 {pid}"},
-        "level_note": TB + note,
-        "technique": tech,
+        "level_note": TB + (f"Source regenerated into Gallina on every run by translator unit(s) {UNITS[pid]} and proved equal to the "
+                            f"model for all inputs (Proofs/GenEq*.v). " if pid in UNITS else "") + NOTE_NOW.get(pid, note),
+        "technique": tech + (" + source-to-Gallina translator with equivalence lemmas" if pid in UNITS and "translator" not in tech else ""),
     })
 m = {
     "version": 1,
